@@ -367,6 +367,26 @@ def runBase (ds : DS) (env : Env) (j : Json) (o : ObsSt) : E (List Node × List 
     depend on the kind of operation) are those of the sequential operation it behaved as. -/
 def runOp (ds : DS) (env : Env) (j : Json) (o : ObsSt) : E (List Node × List (String × String)) := do
   let op ← jstr (← jget j "op")
+  if op == "ticksync" then
+    -- a whole sync round committed between the tick's reads and its AddBlock: candidates of the model's `stepTickSync`
+    -- (the model PREDICTS the outcome, the unserializable one included — C16_tickSync_counterexample)
+    let name ← jstr (← jget j "node")
+    let n := getNode ds name
+    let cfg := cfgOf ds name
+    let ts ← jint (← jget j "ts")
+    let permIds ← jstrList (← jget j "perm")
+    let perm := permIds.filterMap (fun id => n.pool.find? (·.id == id))
+    if perm.length != n.pool.length || !(n.pool.all (fun t => permIds.contains t.id)) then
+      throw s!"perm {short permIds} is not a permutation of the model pool {short (n.pool.map (·.id))}"
+    let rewardId := match o.chain.getLast? >>= ds.blocks.get? with
+      | some b => if b.ts == ts then (b.txs.getLast?.map (·.id)).getD "?" else "?"
+      | none => "?"
+    let now ← jint (← jget j "now")
+    let resps ← (← jarr (← jget j "resps")).toList.mapM fun r => do
+      pure ({ target := ← jstr (← jget r "t"), first := ← lookupBlocks ds (jgetD r "a"), second := ← lookupBlocks ds (jgetD r "b") } : Resp)
+    let outs := Sync.outcomes env cfg n.led now resps
+    let cands := (List.range (max 1 outs.length)).map (fun k => stepTickSync env cfg n ts perm rewardId now resps k)
+    return (cands, [("ticksync", toString outs.length), ("effop", "ticksync")])
   if op == "syncsubmit" then
     -- a submission admitted while the round waits: candidates of the model's `stepX … (.syncSubmit …)`
     let name ← jstr (← jget j "node")
